@@ -12,7 +12,8 @@ for d in sorted(glob.glob(os.path.join(V, "seeded", "*-*/")), key=key):
     summ = re.split(r"(?<=[.;])\s", m.get("summary", "").strip().replace("\n", " ").replace("|", "/"))[0]
     if len(summ) > 150:
         summ = summ[:147] + "..."
-    det = [k for k, v in w.get("checks", {}).items() if v.get("rc") == 1]
+    det = [k + (" (cross)" if v.get("cross") else "") for k, v in w.get("checks", {}).items() if v.get("rc") == 1 and not v.get("cross")]
+    det += [k + " (cross)" for k, v in w.get("checks", {}).items() if v.get("rc") == 1 and v.get("cross")]
     det += [k + " (cross)" for k, v in w.get("cross_check", {}).items() if v.get("rc") == 1]
     det += [k + " (after strengthening)" for k in w.get("after_strengthening", {})]
     first = det[0] if det else "NOT REPORTED"
